@@ -1,4 +1,5 @@
 import GixModel.Lemmas.C47TopoFinal
+import GixModel.Lemmas.C47SimpleGen
 /-
 C47 — Commit walks agree with git rev-list.  PROPERTY THEOREMS ONLY.
 
@@ -86,13 +87,57 @@ theorem simple_cutoff {g : Dag} {q : PQ Int} (hq : q.Lawful) (oldest : Bool) (se
     simp [SimpleCfg.ok, SimpleCfg.byTopology, okDate, Sorting.cutoffTime]
   rw [hok]
 
+/-- EVERY configuration, also a cut-off sorting combined with `Parents::First` (no `Coherent`
+hypothesis): the walk ends regularly and returns exactly the commits walkable with respect to
+`SimpleCfg.accept` — the predicate, the cut-off in the time-sorted modes, and in the first-parent
+mode with a cut-off sorting only the TIPS are subject to the cut-off — each once. -/
+theorem simple_exactly_once_general {g : Dag} {q : PQ Int} (hq : q.Lawful) (cfg : SimpleCfg)
+    {tips nodes : List Nat} (hcl : Closed g nodes) (htips : ∀ t, t ∈ tips → t ∈ nodes)
+    {n : Nat} (hn : nodes.length ≤ n) :
+    ∃ out, simpleWalk g q cfg n tips = .ok out ∧ out.Nodup ∧
+      ∀ x, x ∈ out ↔ Walkable g cfg.firstParent (cfg.accept g tips) tips x :=
+  simple_spec_general hq cfg hcl htips hn
+
+/-- ORDER of the time-sorted walks (ByCommitTime / cut-off, newest or oldest first), for every
+lawful queue that hands out a greatest key first, whatever it does with equal keys: every returned
+commit was discovered (is a tip or a parent of an earlier one) before it is returned, and at that
+moment no discovered commit that is returned later has a greater key (`timeKey`: the commit time,
+negated for oldest-first). This is the order of git's date-sorted walk up to the order of equal
+times. -/
+theorem simple_date_order {g : Dag} {q : PQ Int} (hq : q.Lawful) (hmax : q.MaxFirst leInt') (cfg : SimpleCfg)
+    (hb : cfg.byTopology = false) {tips : List Nat} {n : Nat} {out : List Nat}
+    (h : simpleWalk g q cfg n tips = .ok out) :
+    GreedyOrder g (fun x => timeKey cfg.sorting.oldest (g.time x)) tips out :=
+  simple_greedy_order hq hmax cfg hb h
+
+/-- Newest-first on a history without clock skew: the returned commit times never increase. -/
+theorem simple_newest_first_sorted {g : Dag} {q : PQ Int} (hq : q.Lawful) (hmax : q.MaxFirst leInt')
+    (cfg : SimpleCfg) (hb : cfg.byTopology = false) (hnew : cfg.sorting.oldest = false)
+    (hskew : ∀ c p, p ∈ g.parents c → g.time p ≤ g.time c)
+    {tips : List Nat} {n : Nat} {out : List Nat} (h : simpleWalk g q cfg n tips = .ok out) :
+    out.Pairwise (fun a b => g.time b ≤ g.time a) :=
+  simple_newest_sorted hq hmax cfg hb hnew hskew h
+
+-- non-vacuity: the reference list queue hands out a greatest key first
+example : (selectPQ leInt').MaxFirst leInt' := by
+  intro s e s' h x hx
+  exact C47.extractMax_max leInt' (by intro a b; simp [leInt']; omega) (by intro a b c; simp [leInt']; omega) s e s' h x hx
+
 /-! ### Part 2: the `Topo` iterator (as repaired by the four `fix:` commits in /repo)
 
 For every admissible request — `TCtx`: finite, parent-closed, acyclic graph; duplicate-free parent
 lists; generation numbers that do not increase towards the parents (full, partial or no
 commit-graph); ARBITRARY commit times; any lawful queue implementations, the generation queue
-handing out a maximal generation first; any tips and ends (with repetitions and overlaps);
-first-parent walks only without ends (known finding) — and both sortings. -/
+handing out a maximal generation first; any tips and ends (with repetitions and overlaps); and the
+explicit predicate `HidWalk` (`TCtx.hid_walk`), which holds automatically when all parents are
+walked or there are no ends (`topo_hid_walk`) and which, for a `Parents::First` walk with ends, is
+exactly what the code needs to hide what git hides (where it fails: the known finding) — and both
+sortings. -/
+
+/-- `HidWalk` is automatic unless this is a first-parent walk with ends. -/
+theorem topo_hid_walk {E : TopoEnv} {tips ends : List Nat}
+    (h : E.cfg.firstParent = true → ends = []) : HidWalk E tips ends :=
+  hidWalk_of_fp_ends h
 
 theorem visible_iff {E : TopoEnv} {tips ends : List Nat} (x : Nat) :
     (Rch E tips ends x ∧ ¬ Hid E ends x) ↔ ((∃ t, t ∈ tips ∧ Reach E.eg t x) ∧ ¬ Hid E ends x) := by
